@@ -11,6 +11,7 @@ REGISTRY = {
     'C16': ('vf.checks.c16_check', lambda m: m.main()),
     'C17': ('vf.checks.c17_check', lambda m: m.main()),
     'C18': ('vf.checks.c18_check', lambda m: m.main()),
+    'C19': ('vf.checks.c19_check', lambda m: m.main()),
     'C20': ('vf.checks.c20_check', lambda m: m.main()),
 }
 
